@@ -68,14 +68,14 @@ deriving Repr, DecidableEq
 
 structure Dev where
   alloc : Nat := 0
-  max : Nat := 0
+  maxAlloc : Nat := 0
   /-- ghost: every value `bytesAllocated` has taken since the device was created, newest first -/
   trace : List Nat := []
 deriving Repr
 
 /-- `bytesAllocated += n; maxBytesAllocated = max(maxBytesAllocated, bytesAllocated)` -/
 def Dev.add (d : Dev) (n : Nat) : Dev :=
-  { alloc := d.alloc + n, max := Nat.max d.max (d.alloc + n), trace := (d.alloc + n) :: d.trace }
+  { alloc := d.alloc + n, maxAlloc := max d.maxAlloc (d.alloc + n), trace := (d.alloc + n) :: d.trace }
 /-- `bytesAllocated -= n` -/
 def Dev.sub (d : Dev) (n : Nat) : Dev :=
   { d with alloc := d.alloc - n, trace := (d.alloc - n) :: d.trace }
@@ -134,7 +134,7 @@ def uncovGo (a hi : Nat) : Nat → Nat → List Resv → Nat
     else if rup a (m.off + m.size) ≤ lo then uncovGo a hi lo acc ms   -- continue
     else
       let acc' := if rdn a m.off > lo then acc + (rdn a m.off - lo) else acc
-      let lo' := Nat.min hi (rup a (m.off + m.size))
+      let lo' := min hi (rup a (m.off + m.size))
       if lo' = hi then acc' + (hi - lo')                             -- break
       else uncovGo a hi lo' acc' ms
 
@@ -147,8 +147,8 @@ def interGo (a : Nat) : Nat → Nat → List Resv → Nat
     else if rup a (m.off + m.size) ≤ lo then interGo a lo hi ms
     else if rdn a m.off ≤ lo ∧ rup a (m.off + m.size) ≥ hi then 0     -- hi = lo; break
     else
-      let hi' := Nat.min hi (rup a (m.off + m.size))
-      let lo' := Nat.max lo (rdn a m.off)
+      let hi' := min hi (rup a (m.off + m.size))
+      let lo' := max lo (rdn a m.off)
       if lo' = hi' then 0 else interGo a lo' hi' ms
 
 /-- how much of the aligned span of `m` is new / released space -/
@@ -202,7 +202,7 @@ def sweepGo (a : Nat) (st : Nat → Nat) (lo hi offset : Nat) : List Resv → Sw
       ⟨{ m with off := (offset + rup a (hi - lo)) + (m.off - st m.off) } :: r.resv,
        ⟨offset, lo, hi - lo⟩ :: r.copies, rup a (hi - lo) + r.total⟩
     else
-      let r := sweepGo a st lo (Nat.max hi (m.off + m.size)) offset ms
+      let r := sweepGo a st lo (max hi (m.off + m.size)) offset ms
       ⟨{ m with off := offset + (m.off - lo) } :: r.resv, r.copies, r.total⟩
 
 /-- the whole sweep over a non-empty reservation list `m :: ms` -/
@@ -255,7 +255,7 @@ def findHole (a bytes : Nat) : Nat → List Resv → Nat
   | offset, [] => offset
   | offset, m :: ms =>
     if m.off ≥ offset + bytes then offset
-    else findHole a bytes (Nat.max offset (rup a (m.off + m.size))) ms
+    else findHole a bytes (max offset (rup a (m.off + m.size))) ms
 
 /-- `new serial::memory(pool, bytes, offset)`: the constructor dereferences `buffer` -/
 def Pool.slice (c : Cfg) (p : Pool) (slot fam off bytes : Nat) : Except Err Pool :=
@@ -455,7 +455,7 @@ def State.freePool (s : State) (i : Nat) : State :=
 
 def step (c : Cfg) (s : State) : Op → State × Res
   | .dev _ =>
-    if s.pool0.isNone ∧ s.pool1.isNone ∧ s.mems.isEmpty ∧ s.dev.alloc = 0 ∧ s.dev.max = 0 then
+    if s.pool0.isNone ∧ s.pool1.isNone ∧ s.mems.isEmpty ∧ s.dev.alloc = 0 ∧ s.dev.maxAlloc = 0 then
       ({ s with dev := {} }, .ok)
     else (s, .badOp)
   | .pool i =>
